@@ -7,6 +7,7 @@ define_language! {
     /// T: multi-slot leaves, plain children, every binder layout.
     pub enum T {
         F(Slot, Slot) = "f",
+        P2(Slot, Slot) = "p",
         F3(Slot, Slot, Slot) = "f3",
         F4(Slot, Slot, Slot, Slot) = "f4",
         F5(Slot, Slot, Slot, Slot, Slot) = "f5",
